@@ -677,6 +677,9 @@ def setitem(ctx: Ctx, a: Arr, key, value):
     if a.has_views or a.base is not None:
         # a write through / under a live view: the value model has no shared memory
         ctx.dropped.add("write to an array that has views: aliases not updated")
+    from .values import SymList as _SymList
+    if isinstance(key, _SymList) and isinstance(key.length, int) and key.length == a.ndim:
+        key = tuple(key.item(m) for m in range(key.length))  # tuple(subs.transpose()): one index vector per axis
     if isinstance(key, tuple):
         keys = list(key)
     else:
@@ -864,6 +867,37 @@ def setitem(ctx: Ctx, a: Arr, key, value):
             vfn = lambda r, c: value
         a.fn = lambda r, c: T.Ite(has(T.tz(c)), cast_elem(vfn(r, last(T.tz(c))), dt), old(r, c))
         ctx.log_ghost("colscatter", (has, last))
+        return
+    if a.ndim == 2 and len(keys) == 2 and all(is_arr(k) and k.ndim == 1 and k.dtype == "int" for k in keys):
+        # pairwise scatter a[rows, cols] = value: entry (rows[t], cols[t]) receives value[t] (last write wins)
+        kr, kc = keys
+        L = kr.shape[0]
+        ctx.raise_unless(T.eq(kc.shape[0], L), "IndexError", "shape mismatch: indexing arrays could not be broadcast together")
+        t = T.fresh_int("t")
+        for k_, n_ in ((kr, a.shape[0]), (kc, a.shape[1])):
+            if not _known_in_range(k_, n_):
+                e = k_.fn(t)
+                ctx.oblige(T.ForAll([t], T.Implies(T.And(0 <= t, T.lt(t, L)), T.And(T.le(T.neg(n_), e), T.lt(e, n_)))), "scatter-index-in-bounds", kind="index")
+        nz = lambda k_, n_: ((lambda u: T.tz(k_.fn(u))) if _known_nonneg(k_) else (lambda u: z3.If(T.tz(k_.fn(u)) >= 0, T.tz(k_.fn(u)), T.tz(k_.fn(u)) + T.tz(n_))))
+        fr, fc = nz(kr, a.shape[0]), nz(kc, a.shape[1])
+        has = T.fresh_fun("hit2", I, I, z3.BoolSort())
+        last = T.fresh_fun("last2", I, I, I)
+        i, j = T.fresh_int("i"), T.fresh_int("j")
+        ctx.assume(T.ForAll([t], z3.Implies(z3.And(0 <= t, T.lt(t, L)), z3.And(has(fr(t), fc(t)), last(fr(t), fc(t)) >= t)), [[fr(t), fc(t)]] if not _known_nonneg(kr) else None),
+                   trusted="numpy:fancy-assignment(last write wins)")
+        ctx.assume(T.ForAll([i, j], z3.Implies(has(i, j), z3.And(0 <= last(i, j), T.lt(last(i, j), L), fr(last(i, j)) == i, fc(last(i, j)) == j)), [has(i, j)]))
+        if is_arr(value):
+            if value.ndim != 1:
+                raise PathAbort("pairwise scatter with a non-vector value", ctx.cur_line)
+            if not (isinstance(value.shape[0], int) and value.shape[0] == 1):
+                ctx.raise_unless(T.eq(value.shape[0], L), "ValueError", "shape mismatch in fancy assignment")
+                vfn = lambda u: value.fn(u)
+            else:
+                vfn = lambda u: value.fn(0)
+        else:
+            vfn = lambda u: value
+        a.fn = lambda r, c: T.Ite(has(T.tz(r), T.tz(c)), cast_elem(vfn(last(T.tz(r), T.tz(c))), dt), old(r, c))
+        ctx.log_ghost("pairscatter", (has, last))
         return
     if (a.ndim == 2 and len(keys) == 2 and isinstance(keys[0], slice) and keys[0] == slice(None) and is_arr(keys[1])
             and keys[1].ndim == 1 and keys[1].dtype == "bool"):
